@@ -163,7 +163,8 @@ pub struct SrvCfg {
 	/// is closed for inactivity (inactive_limit 0, max_failures 1)
 	pub ping_ms: Option<u64>,
 	/// SRV-LOW: WebSocket connections are served through the low-level `jsonrpsee_server::ws::connect` (as in the
-	/// repository's `jsonrpsee_server_low_level_api` example) instead of the `TowerService`
+	/// repository's `jsonrpsee_server_low_level_api` example), HTTP requests through `http::call_with_service_builder`,
+	/// instead of the `TowerService`
 	pub low_ws: bool,
 	/// the id provider hands out the same subscription id every time (ids may be reused once a subscription has ended);
 	/// handler log tags then carry `#<script index>` to tell the instances apart
@@ -481,16 +482,23 @@ pub fn setup(cfg: &SrvCfg) -> SrvState {
 		let (a, b) = tokio::io::duplex(1 << 16);
 		let stop2 = stop.clone();
 		let done = serve_done.clone();
-		if cfg.low_ws && matches!(conn, Conn::Ws(_) | Conn::WsRaw(_)) {
+		if cfg.low_ws {
 			// low-level assembly: the application's own tower service calls ws::connect and spawns the connection future
 			let (methods, scfg, guard, stop3) = (methods.clone(), server_cfg(cfg), low_guard.clone(), stop.clone());
-			let svc = tower::service_fn(move |req: http::Request<hyper::body::Incoming>| {
+			let svc = tower::service_fn(move |mut req: http::Request<hyper::body::Incoming>| {
 				let (methods, scfg, guard, stop3) = (methods.clone(), scfg.clone(), guard.clone(), stop3.clone());
 				async move {
+					// what the stock server puts into every request before handing it on
+					req.extensions_mut().insert::<jsonrpsee_server::ConnectionGuard>(guard.clone());
+					req.extensions_mut().insert::<jsonrpsee_server::ConnectionId>((c as u32).into());
 					let Some(permit) = guard.try_acquire() else {
 						return Ok::<_, std::convert::Infallible>(jsonrpsee_server::http::response::too_many_requests());
 					};
 					let conn_state = jsonrpsee_server::ConnectionState::new(stop3, c as u32, permit);
+					if !jsonrpsee_server::ws::is_upgrade_request(&req) {
+						// the low-level HTTP entry point: the permit travels in the ConnectionState and is held while the call runs
+						return Ok(jsonrpsee_server::http::call_with_service_builder(req, scfg, conn_state, methods, jsonrpsee_server::middleware::rpc::RpcServiceBuilder::new()).await);
+					}
 					match jsonrpsee_server::ws::connect(req, scfg, methods, conn_state, jsonrpsee_server::middleware::rpc::RpcServiceBuilder::new()).await {
 						Ok((rp, conn_fut)) => {
 							tokio::spawn(async move {
